@@ -176,6 +176,89 @@ def compare_with_python(ctx, job, cres, pres):
                         ctx.violation(f"sensor {key}: stored innovation C++ {iv} vs Python {u['innovation']}", dict(rp, sensor=key), key="py-cpp-innovation")
 
 
+def template_cases(job, cres, pres):
+    """C07 (T->C): rows for Model/CppEkfExec: the regenerated C++ template formulas evaluated exactly on the matrices the
+    compiled generated functions returned, against what the compiled process_model / sensor_model returned."""
+    d = job["defn"]
+    S, U = sorted(d["state"]), sorted(d["control"])
+    n, c = len(S), len(U)
+    rows, src = [], []
+    if "error" in cres or not cres.get("compile_ok") or not cres.get("run_ok") or "error" in pres:
+        return rows, src
+    q = E.qmat
+    for pi, (p, run) in enumerate(zip(job["points"], cres["runs"])):
+        G = _mat(run, "G", n, n)
+        cov = _mat(run, "pm/cov", n, n)
+        if c:
+            V, Mm = _mat(run, "V", n, c), _mat(run, "M", c, c)
+        else:
+            V, Mm = [[0.0] for _ in range(n)], [[0.0]]      # zero column stands for the empty control block
+        finite = lambda m: not has_nan(m) and all(abs(v) < 1e12 for row in m for v in row)  # noqa: E731
+        if all(finite(m) for m in (G, V, Mm, cov, p["P"])):
+            rows.append(f"check_cpp_predict {q(G)} {q(V)} {q(p['P'])} {q(Mm)} {q(cov)}")
+            src.append((pi, "predict"))
+        py = pres["points"][pi]
+        orc = py["oracle"]
+        for key, rd in d["sensors"].items():
+            R = sorted(rd)
+            m = len(R)
+            ou = orc.get("updates", {}).get(key) if "_failed" not in orc else None
+            if ou is None or not E.well_conditioned(ou, p["P"]):
+                continue
+            H, Qm = _mat(run, f"H/{key}", m, n), _mat(run, f"Q/{key}", m, m)
+            hx = [[run.get(f"h/{key}/{i}/0")] for i in range(m)]
+            z = [[p["readings"][key][r]] for r in R]
+            x = [[p["state"][s]] for s in S]
+            ux = [[run.get(f"upd/{key}/state/{i}/0")] for i in range(n)]
+            uc = _mat(run, f"upd/{key}/cov", n, n)
+            if run.get(f"inn/{key}/has") != 1.0:
+                continue
+            inn = [[run.get(f"inn/{key}/{i}/0")] for i in range(m)]
+            if not all(finite(mm) for mm in (H, Qm, hx, ux, uc, inn)):
+                continue
+            rej = all(ux[i][0] == x[i][0] for i in range(n)) and uc == p["P"]
+            rows.append(f"check_cpp_update {'true' if rej else 'false'} {q(x)} {q(p['P'])} {q(z)} {q(hx)} {q(H)} {q(Qm)} {q(ux)} {q(uc)} {q(inn)}")
+            src.append((pi, "update:" + key))
+    return rows, src
+
+
+CPP_HEADER = """From Coq Require Import String List ZArith QArith.
+From FV Require Import Base.ListMat Model.GlueExec Model.CppEkfExec.
+Import ListNotations.
+"""
+CPP_CODES = {9: "a shape premise of the refinement theorem fails", 8: "a premise (shape / inverse certificate) of the refinement theorem fails",
+             3: "posterior state differs", 4: "covariance differs", 5: "stored innovation differs"}
+
+
+def run_template(ctx, jobs, cres_list, pres_list):
+    rows, src = [], []
+    for j, (job, c, p) in enumerate(zip(jobs, cres_list, pres_list)):
+        r, s = template_cases(job, c, p)
+        rows += r
+        src += [(j,) + t for t in s]
+    if not rows:
+        return 0
+    ctx.make(["Model/CppEkfExec.vo"])
+    items, shard = [], 60
+    for s0 in range(0, len(rows), shard):
+        body = ";\n  ".join(rows[s0:s0 + shard])
+        items.append((f"cpptpl_{s0}", CPP_HEADER + f"Definition results : list nat := [\n  {body}\n].\nEval vm_compute in (nonzero_indexed results 0).\n"))
+    bad = []
+    for (t, _), (ok, o), s0 in zip(items, ctx.coq_eval_many(items), range(0, len(rows), shard)):
+        pairs = glue.parse_pairs(o) if ok else None
+        if pairs is None:
+            ctx.broken.append({"kind": "correspondence", "name": "C++ template model could not be evaluated", "detail": o[-600:]})
+            return len(rows)
+        bad += [(s0 + i, c) for i, c in pairs]
+    if bad:
+        i0, c0 = bad[0]
+        j, pi, tag = src[i0]
+        ctx.broken.append({"kind": "correspondence",
+                           "name": f"regenerated C++ template formulas (exact, on the matrices the compiled functions returned) vs compiled process_model / sensor_model [{tag}]: {CPP_CODES.get(c0, c0)}",
+                           "detail": f"{len(bad)} of {len(rows)} cases; first: definition={jobs[j]['defn']} cse={jobs[j]['cse']} point={jobs[j]['points'][pi]}"})
+    return len(rows)
+
+
 # ------------------------------------------------------------------------------------------ parse-back (structure)
 def structure_cases(job, cres):
     """Coq boolean terms comparing Model/CppGen.v with the tables parsed from the generated text.
